@@ -1149,3 +1149,79 @@ func c10WalkedLists(fn *ssa.Function) (walks []c10Walk, ok bool) {
 	}
 	return walks, ok
 }
+
+// c10FullRange: idx runs over 0..bound-1 in steps of one, bound satisfying isBound:
+// the induction variable of a `range` loop (φ(-1, i)+1 tested `< bound`), of a counted
+// loop (φ(0, i+1) tested `< bound`), or such a variable rotated as (c + i) % bound.
+// Returns "" when it does, else the reason.
+func c10FullRange(idx ssa.Value, isBound func(ssa.Value) bool) string {
+	idx = core.Forward(idx)
+	if b, ok := idx.(*ssa.BinOp); ok && b.Op == token.REM && isBound(b.Y) {
+		if s, ok := core.Forward(b.X).(*ssa.BinOp); ok && s.Op == token.ADD {
+			if c10FullRange(s.X, isBound) == "" || c10FullRange(s.Y, isBound) == "" {
+				return ""
+			}
+		}
+		return "the index is not (offset + i) % bound for an i running over all slots"
+	}
+	boundedBy := func(v ssa.Value, blk *ssa.BasicBlock) bool {
+		if blk == nil || len(blk.Instrs) == 0 {
+			return false
+		}
+		iff, ok := blk.Instrs[len(blk.Instrs)-1].(*ssa.If)
+		if !ok {
+			return false
+		}
+		c, ok := iff.Cond.(*ssa.BinOp)
+		if !ok {
+			return false
+		}
+		switch c.Op {
+		case token.LSS:
+			return c.X == v && isBound(c.Y)
+		case token.GTR:
+			return c.Y == v && isBound(c.X)
+		case token.NEQ:
+			return (c.X == v && isBound(c.Y)) || (c.Y == v && isBound(c.X))
+		}
+		return false
+	}
+	isOne := func(v ssa.Value) bool { n, ok := core.ConstInt(v); return ok && n == 1 }
+	// range shape: idx = φ(-1, idx) + 1
+	if b, ok := idx.(*ssa.BinOp); ok && b.Op == token.ADD && isOne(b.Y) {
+		if phi, ok := b.X.(*ssa.Phi); ok && len(phi.Edges) == 2 {
+			init, back := phi.Edges[0], phi.Edges[1]
+			if back != ssa.Value(b) {
+				init, back = back, init
+			}
+			if n, isC := core.ConstInt(init); back == ssa.Value(b) && isC {
+				if n != -1 {
+					return "the loop starts at " + core.Describe(init) + "+1, not at slot 0"
+				}
+				if !boundedBy(b, b.Block()) {
+					return "the loop is not bounded by `< len(slots)` / `< numSlots`"
+				}
+				return ""
+			}
+		}
+	}
+	// counted shape: idx = φ(0, idx+1)
+	if phi, ok := idx.(*ssa.Phi); ok && len(phi.Edges) == 2 {
+		for k := 0; k < 2; k++ {
+			init, back := phi.Edges[k], core.Forward(phi.Edges[1-k])
+			n, isC := core.ConstInt(init)
+			inc, isInc := back.(*ssa.BinOp)
+			if !isC || !isInc || inc.Op != token.ADD || inc.X != ssa.Value(phi) || !isOne(inc.Y) {
+				continue
+			}
+			if n != 0 {
+				return "the loop starts at slot " + core.Describe(init) + ", not at slot 0"
+			}
+			if !boundedBy(phi, phi.Block()) {
+				return "the loop is not bounded by `< len(slots)` / `< numSlots`"
+			}
+			return ""
+		}
+	}
+	return "the index is not the induction variable of a loop over all slots"
+}
